@@ -155,11 +155,16 @@ class Interp:
                 return frame.args[key]
             if n[2] is not None:
                 self.stats["defaults"] += 1
-                return self.eval_seq(n[2], frame)
+                return self.eval_seq(n[2], frame, selective)
             self.stats["literal_params"] += 1
             return "{{{" + str(key) + "}}}"
         if k == "C":
             return self.eval_call(n, frame, selective)
+        if k in ("IF", "IFEQ", "SW") and not self.expand_pfn:
+            # disabled parser functions are emitted as the call they were
+            from gens.exp import render_node
+
+            return render_node(n)
         if k == "IF":
             self.stats["pfn"] += 1
             c = trim(self.eval_seq(n[1], frame))
@@ -179,7 +184,7 @@ class Interp:
         if k == "INV":
             if self.invoke_fn is None:
                 raise OutOfDomain("invoke without model")
-            return self.invoke_fn(self, n, frame)
+            return self.invoke_fn(self, n, frame, selective)
         raise ValueError(k)
 
     def _pfn_result(self, r):
@@ -210,15 +215,35 @@ class Interp:
             return v
         return trim(self.eval_seq(tail[1], frame))
 
+    def emit_arg(self, a, frame):
+        """An argument of a call that is NOT expanded: written back as it was,
+        with the constructs inside it evaluated under the same selection."""
+        if a[0] == "pos":
+            return self.eval_seq(a[1], frame, True)
+        p = a[3]
+        return (p[0] + a[1] + p[1] + "=" + p[2]
+                + self.eval_seq(a[2], frame, True) + p[3])
+
     def eval_call(self, n, frame, selective):
         name = trim(n[1])
+        if selective and not (self.selected is None or self.selected(name)):
+            # not selected: emitted as a call with the same name and arguments
+            self.stats["reemitted"] = self.stats.get("reemitted", 0) + 1
+            if self.stack:
+                self.stats["reemit_in_body"] = 1
+            return "{{" + "|".join(
+                [n[1]] + [self.emit_arg(a, frame) for a in n[2]]) + "}}"
+        if selective:
+            self.stats["selected_expanded"] = \
+                self.stats.get("selected_expanded", 0) + 1
         self.stats["calls"] += 1
         args = self.build_args(n[2], frame)
         ent = self.lib.get(name)
         self.call_log.append((name, dict(args)))
+        idx = len(self.call_log) - 1
         t = None
         if self.template_fn is not None:
-            t = self.template_fn(name, dict(args), len(self.call_log) - 1)
+            t = self.template_fn(name, dict(args), idx)
         if t is None:
             if ent is None:
                 self.stats["missing"] += 1
@@ -233,7 +258,8 @@ class Interp:
                 self.stats["max_nest"] = max(self.stats["max_nest"],
                                              len(self.stack))
                 try:
-                    t = self.eval_seq(ent["body"], Frame(name, args))
+                    t = self.eval_seq(ent["body"], Frame(name, args),
+                                      selective)
                 finally:
                     self.stack.pop()
         t2 = auto_newline(t)
@@ -241,14 +267,13 @@ class Interp:
             self.stats["auto_newline"] += 1
         t = t2
         if self.post_template_fn is not None and t:
-            r = self.post_template_fn(name, dict(args), t,
-                                      len(self.call_log) - 1)
+            r = self.post_template_fn(name, dict(args), t, idx)
             if r is not None:
                 t = r
         return t
 
 
-def evaluate(page, lib, **kw):
+def evaluate(page, lib, selective=False, **kw):
     it = Interp(lib, **kw)
-    out = it.eval_seq(page, None)
+    out = it.eval_seq(page, None, selective)
     return it.finish(out), it
